@@ -6,6 +6,7 @@
 """
 IProxyParser implementation for version one of the PROXY protocol.
 """
+from ipaddress import IPv4Address, IPv6Address
 from typing import Tuple, Union
 
 from zope.interface import implementer
@@ -129,6 +130,14 @@ class V1Parser:
         destPort = line
 
         with convertError(ValueError, InvalidProxyHeader):
+            # The address fields must be literals of the announced family
+            # (without a zone identifier, which the protocol has no place for).
+            validate = IPv4Address if networkProtocol == cls.TCP4_PROTO else IPv6Address
+            for addr in (sourceAddr, destAddr):
+                if b"%" in addr:
+                    raise ValueError("invalid address")
+                validate(addr.decode("ascii"))
+
             if networkProtocol == cls.TCP4_PROTO:
                 return _info.ProxyInfo(
                     originalLine,
